@@ -357,7 +357,7 @@ theorem insertKnot_periodic (b : Basis K) (hv : b.Valid) (k : ℕ) (hk : b.perio
       unfold idxErr
       omega
     simp only []
-    rw [← hmu, if_neg hidx, if_neg (by omega)]
+    rw [← hmu, if_neg (by omega), if_neg (by omega), if_neg hidx]
   · refine ⟨hp, ?_, fun i hi => ?_, by rw [hk]; omega, hv.periodic_le, ?_, fun _ i hi => ?_⟩
     · change 2 * b.order ≤ (repair b knots1 mu).size
       rw [hrs]; omega
